@@ -82,8 +82,10 @@ extern void echs_unsc_icalify(int whither, const char *tuid);
 extern void echs_icalify_init(int whither, echs_instruc_t i);
 
 /**
- * Send the ical footer. */
-extern void echs_icalify_fini(int whither);
+ * Send the ical footer.
+ * Return -1 if some of what was sent to WHITHER since echs_icalify_init()
+ * could not be written, 0 otherwise. */
+extern int echs_icalify_fini(int whither);
 
 /* The pull parser */
 /**
